@@ -71,12 +71,12 @@ Proof.
 Qed.
 
 (* T2 *)
-Lemma started_feeds_history_lemma o w : (forall c, o <> Load c) ->
+Lemma started_feeds_history_lemma o w : (forall c, o <> Load c) -> (forall ks, o <> SetHistory ks) ->
   let w' := stepw shuf fuel w o in
   exists new, events w' = new ++ events w /\ history w' = started new ++ history w.
 Proof.
-  intros Hn. apply (stepw_rel shuf fuel hist_rel o hist_trans).
-  - apply run_op_hist_rel. exact Hn.
+  intros Hn Hs. apply (stepw_rel shuf fuel hist_rel o hist_trans).
+  - apply run_op_hist_rel; [exact Hn|exact Hs].
   - apply get_time_position_hist_rel.
 Qed.
 
